@@ -122,6 +122,7 @@ def _case(draw):
             'dur': draw(st.one_of(st.sampled_from([0, 1, 59, 60, 86399, 86400, 31536000, 100 * 365 * 86400]), st.integers(0, 10 ** 9))),
             'now': draw(_DATES), 'clock_ms': draw(st.integers(0, 2 ** 44)),
             'target_total': draw(st.one_of(st.none(), st.integers(245, 261))),
+            'usec': draw(st.sampled_from([0, 0, 0, 1, 400000, 600000, 999999])), 'dur_frac': draw(st.sampled_from([0, 0, 0, 0.5, 0.4, 0.999999])),
             'proc_tz': draw(st.sampled_from([None] * 5 + ['EST5EDT,M3.2.0,M11.1.0', 'CET-1CEST,M3.5.0,M10.5.0/3',
                                                          'LHST-10:30LHDT-11,M10.1.0,M4.1.0', 'UTC0'])),
             'reentrant': draw(st.integers(0, 5)) == 0, 'relocate': draw(st.integers(0, 4)) == 0}
@@ -182,13 +183,17 @@ def _run_case(case):
                     if case['aware']:
                         tz = dt.timezone(dt.timedelta(minutes=case.get('tz_min', 0)))
                     start = dt.datetime(*case['start'], tzinfo=tz)
-                    end = start + dt.timedelta(seconds=case['dur'])
+                    # (sub-second parts: the start may carry microseconds, the duration a fraction; NotAfter is the second in
+                    # which start + duration falls)
+                    start = start.replace(microsecond=case.get('usec', 0))
+                    dur = case['dur'] + case.get('dur_frac', 0)
+                    end = start + dt.timedelta(seconds=dur)
                 except (ValueError, OverflowError):
                     r.discarded = True
                     return r
                 issuer_arg = case['issuer']['text'] if 'text' in case['issuer'] else S.comp_bytes(case['issuer']['comp'])
                 issuer_comp = ref_comp_from_uri(case['issuer']['text']) if 'text' in case['issuer'] else issuer_arg
-                name, wire = derive_cert(key_name, issuer_arg, pub, signer, start, case['dur'])
+                name, wire = derive_cert(key_name, issuer_arg, pub, signer, start, dur)
             elif case['fn'] == 'self':
                 start = dt.datetime(1970, 1, 1)
                 try:
@@ -307,6 +312,24 @@ def _run_case(case):
             continue
         if got != want:
             r.bad(f'C16/{tag}/{pname}-differs', '')
+        # what a parser returns belongs to the caller: editing it in place must not change what the next parse returns
+        try:
+            if pname == 'parse_certificate':
+                del pc.name[-2:]
+                pc.content = b'edited'
+                pc.signature_info.key_locator.name = [b'\x08\x01e']
+                again = parser(wire)
+                got2 = ([bytes(x) for x in again.name], bytes(again.content), [bytes(x) for x in again.signature_info.key_locator.name])
+                if got2 != (c['name'], c['content'], si['key_locator']['name'] if si and si['key_locator'] else None):
+                    r.bad(f'C16/{tag}/{pname}-second-parse-sees-callers-edits', '')
+            else:
+                n2.append(b'\x08\x01e')
+                mi.content_type = 77
+                n3, mi3, _c3, _s3 = parser(wire)
+                if [bytes(x) for x in n3] != c['name'] or mi3.content_type != 2:
+                    r.bad(f'C16/{tag}/{pname}-second-parse-sees-callers-edits', '')
+        except Exception as e:
+            r.bad(f'C16/{tag}/{pname}-second-parse-raised/{type(e).__name__}', repr(e)[:200])
     shrink = P.reserved_size(spec) - len(sig)
     outer = T.num_size(len(wire) - 1 - T.num_size(T.single(wire)[3] - T.single(wire)[2]))
     near = abs(len(wire) - 253) <= 8
